@@ -191,6 +191,16 @@ func c28Range(r *core.Run, p *core.Prog) {
 								}
 							}
 						}
+						// or returns a non-nil error directly
+						if rs, ok := y.(*ast.ReturnStmt); ok {
+							for _, res := range rs.Results {
+								if t := info.TypeOf(res); t != nil && core.IsErrorType(t) && !core.IsNil(info, res) {
+									if _, isId := ast.Unparen(res).(*ast.Ident); !isId {
+										produces = true
+									}
+								}
+							}
+						}
 						return true
 					})
 					okOrder = produces
@@ -204,8 +214,12 @@ func c28Range(r *core.Run, p *core.Prog) {
 						}
 						if branch != nil {
 							core.Walk(branch, false, func(y ast.Node) bool {
-								if a, ok := y.(*ast.AssignStmt); ok && len(a.Lhs) == 1 && core.ObjOf(info, a.Lhs[0]) == last && core.Str(resolveLocal(info, f.Decl.Body, a.Rhs[0])) == "time.Now().Unix()" {
-									okNow = true
+								if a, ok := y.(*ast.AssignStmt); ok && len(a.Lhs) == len(a.Rhs) {
+									for k := range a.Lhs {
+										if core.ObjOf(info, a.Lhs[k]) == last && core.Str(resolveLocal(info, f.Decl.Body, a.Rhs[k])) == "time.Now().Unix()" {
+											okNow = true
+										}
+									}
 								}
 								return true
 							})
